@@ -31,6 +31,11 @@ class SymDiGraph:
         self.eattr = {}
         self.sym_order = sym_order
         self.graph = {}
+        # iteration order of successors (networkx: insertion order of the edges, i.e. history dependent):
+        # decided once per node (a symbolic permutation for two pre-state children), then maintained
+        self.sorder = {}  # slot -> [successor slots] once materialised
+        self.added = {}  # slot -> successors added before materialisation, in order
+        self.order_log = {}  # node id -> initial successor order that was chosen (for replay)
 
     # ------------------------------------------------------------ helpers
     def _id(self, n):
@@ -73,10 +78,16 @@ class SymDiGraph:
                 out.append(s)
         return out
 
-    def _order(self, lst, label):
-        if self.sym_order and len(lst) == 2 and cur().choose(2, label) == 1:
-            return [lst[1], lst[0]]
-        return lst
+    def _succ_slots(self, s):
+        if s not in self.sorder:
+            late = [t for t in self.added.get(s, []) if self._edge_bit(s, t)]
+            base = [j for j in range(self.N) if j not in late and self._edge_bit(s, j)]
+            if self.sym_order and len(base) == 2 and cur().choose(2, "succ_order") == 1:
+                base = [base[1], base[0]]
+            if len(base) > 1:
+                self.order_log[self.ids[s]] = [self.ids[j] for j in base]
+            self.sorder[s] = base + late
+        return [t for t in self.sorder[s] if self._edge_bit(s, t)]
 
     # ------------------------------------------------------------ queries
     def has_node(self, n):
@@ -148,15 +159,13 @@ class SymDiGraph:
 
     def successors(self, n):
         s = self._live_slot(n, nx.NetworkXError)
-        lst = [self.ids[j] for j in range(self.N) if self._edge_bit(s, j)]
-        return iter(self._order(lst, "succ"))
+        return iter([self.ids[j] for j in self._succ_slots(s)])
 
     neighbors = successors
 
     def predecessors(self, n):
         s = self._live_slot(n, nx.NetworkXError)
-        lst = [self.ids[i] for i in range(self.N) if self._edge_bit(i, s)]
-        return iter(self._order(lst, "pred"))
+        return iter([self.ids[i] for i in range(self.N) if self._edge_bit(i, s)])
 
     def in_edges(self, n=None, data=False):
         if data:
@@ -224,6 +233,10 @@ class SymDiGraph:
             self.alive[s] = True
         if not self._edge_bit(su, sv):
             self.eattr[(su, sv)] = {}
+            if su in self.sorder:
+                self.sorder[su] = [t for t in self.sorder[su] if t != sv] + [sv]
+            else:
+                self.added[su] = [t for t in self.added.get(su, []) if t != sv] + [sv]
         self.E[su][sv] = True
         self.eattr.setdefault((su, sv), {}).update(attrs)
 
@@ -231,7 +244,13 @@ class SymDiGraph:
         s = self._live_slot(n, nx.NetworkXError)
         self.alive[s] = False
         self.nattr[s] = {}
+        self.sorder.pop(s, None)
+        self.added.pop(s, None)
         for j in range(self.N):
+            if j in self.sorder:
+                self.sorder[j] = [t for t in self.sorder[j] if t != s]
+            if j in self.added:
+                self.added[j] = [t for t in self.added[j] if t != s]
             self.E[s][j] = False
             self.E[j][s] = False
             self.eattr.pop((s, j), None)
@@ -242,6 +261,10 @@ class SymDiGraph:
         if su is None or sv is None or not self._edge_bit(su, sv):
             raise nx.NetworkXError(f"The edge {u}-{v} not in graph.")
         self.E[su][sv] = False
+        if su in self.sorder:
+            self.sorder[su] = [t for t in self.sorder[su] if t != sv]
+        if su in self.added:
+            self.added[su] = [t for t in self.added[su] if t != sv]
         self.eattr.pop((su, sv), None)
 
     # ------------------------------------------------------------ realisation
@@ -265,8 +288,8 @@ class SymDiGraph:
             else:
                 g._node[self.ids[s]].update(self.nattr[s])
         for s in slots:
-            for t in slots:
-                if self._edge_bit(s, t):
+            for t in self._succ_slots(s):
+                if t in slots:
                     d = self.eattr.setdefault((s, t), {})
                     g.add_edge(self.ids[s], self.ids[t])
                     if share_attrs:
@@ -301,7 +324,7 @@ class SymDiGraph:
 
     def __getitem__(self, n):
         s = self._live_slot(n)
-        return {self.ids[t]: self.eattr.setdefault((s, t), {}) for t in range(self.N) if self._edge_bit(s, t)}
+        return {self.ids[t]: self.eattr.setdefault((s, t), {}) for t in self._succ_slots(s)}
 
     def __getattr__(self, name):
         if name.startswith("__"):
@@ -367,8 +390,8 @@ class _EdgeView:
             return g.out_edges(nbunch)
         out = []
         for s in g._alive_slots():
-            for j in range(g.N):
-                if g._edge_bit(s, j):
+            for j in g._succ_slots(s):
+                if True:
                     e = (g.ids[s], g.ids[j])
                     if data is True:
                         out.append(e + (g.eattr.setdefault((s, j), {}),))
